@@ -447,7 +447,7 @@ func (r *chainRig) run(raw json.RawMessage) interface{} {
 	retries := 0
 	for {
 		resp, rb = r.roundTrip(&c)
-		if resp == nil || resp.Header.Get("X-Verif-Aborted") == "" || retries == 3 {
+		if resp == nil || retries == 3 || (resp.Header.Get("X-Verif-Aborted") == "" && !(r.upstreamCount() > 0 && cutByUpstreamError(&c, rb))) {
 			break
 		}
 		retries++
@@ -503,6 +503,25 @@ func (r *chainRig) run(raw json.RawMessage) interface{} {
 
 // the User-Agent the gateway's rest.Config carries (pkg/clusters/util.go newRESTConfig); it contains the pid,
 // so recorded values equal to it are projected to a fixed token
+// cutByUpstreamError recognises the second shape of the same fault: when the copy of the upstream's answer
+// fails in the middle, the gateway's proxyErrorResponder writes a 502 Status document into the already started
+// response and the stream then ends cleanly, so the client receives a prefix of the upstream's body followed by
+// that document (reason KubeGatewayInternalError).
+func cutByUpstreamError(c *chainCase, rb []byte) bool {
+	idx := bytes.LastIndex(rb, []byte(`{"kind":"Status"`))
+	if idx < 0 || !bytes.Contains(rb[idx:], []byte("KubeGatewayInternalError")) {
+		return false
+	}
+	want := genBody(c.Reply.Body)
+	return idx <= len(want) && bytes.Equal(rb[:idx], want[:idx]) && len(rb) != len(want)
+}
+
+func (r *chainRig) upstreamCount() int {
+	r.mu.Lock()
+	defer r.mu.Unlock()
+	return len(r.upSeen)
+}
+
 func gatewayUserAgent() string {
 	return rest.DefaultKubernetesUserAgent() + "/" + fmt.Sprintf("kube-gateway/pid-%v", os.Getpid())
 }
